@@ -290,7 +290,7 @@ impl Hist {
             pick!(cfg.w_liq, { self.op_liquidity(w, p, monitors, acc) });
             pick!(cfg.w_fees, { self.op_fees(w, p, monitors, acc) });
             pick!(cfg.w_clock, {
-                let dt = *rnd::pick(&mut w.r, &[0i64, 1, 1, 30, 59, 60, 61, 600, 3599, 3600, 3601, 86_400, 1_000_000]);
+                let dt = *rnd::pick(&mut w.r, &[0i64, 1, 1, 30, 59, 60, 61, 600, 3599, 3600, 3601, 86_400, 1_000_000, 1, 60, 3600, 2_147_483_648, 4_294_967_301]);
                 w.advance_clock(dt);
                 acc.count("clock_advance");
             });
@@ -408,7 +408,7 @@ impl Hist {
             0 => 1,
             1 => w.r.gen_range(1..1000),
             2 if st.liquidity > 0 => st.liquidity,
-            3 => rnd::log_u128(&mut w.r, 100).max(1),
+            3 | 4 => rnd::log_u128(&mut w.r, 100).max(1),
             _ => rnd::log_u128(&mut w.r, 50).max(1),
         }
     }
